@@ -246,4 +246,42 @@ def t2(chk, wc, tier, seed):
     ties.append(("local_missing_dep_is_loss",
                  "theorem local_missing_dep_is_loss : localDepReadErrorNotFatalG = true ∧ localLostUnlessFatalG = true := by decide",
                  "exec/local.go: an unreadable dependency output leaves the consumer LOST (recomputed by the evaluator), not failed"))
+    # the worker's half (BS.WorkerTask): the statements of (*worker).Discard in order, the arms of (*worker).Run's entry switch,
+    # its wait loop, and what Task.Err reports for a LOST task
+    import json
+    bm = open(wc.repo + "/exec/bigmachine.go").read()
+    rc, out, err = vlib.gofacts(wc, "stmts", "exec/bigmachine.go", "worker.Discard")
+    if rc == 0:
+        st = [s["text"] for s in json.loads(out)]
+        def pos(sub):
+            for i, s in enumerate(st):
+                if sub in s:
+                    return i
+            return -1
+        guard, mark, store, lost = pos("if task.state != TaskOk {"), pos("task.state = TaskRunning"), pos("w.store.Discard("), pos("task.Set(TaskLost)")
+        disc_order = 0 <= guard < mark < store < lost and "return nil" in st[guard]
+    else:
+        disc_order = False
+    try:
+        wr = bm[bm.index("func (w *worker) Run("):]
+        wr = wr[:wr.index("\n}\n")]
+    except ValueError:
+        wr = ""
+    m = re.search(r"task\.Lock\(\)\n\tswitch task\.state \{\n((?:.|\n)*?)\n\tdefault:\n((?:.|\n)*?)\n\t\}\n\ttask\.state = TaskRunning\n\ttask\.Unlock\(\)", wr)
+    arms = sorted(re.findall(r"case (Task\w+):", m.group(1))) if m else []
+    dflt = m.group(2) if m else ""
+    waits = re.search(r"for task\.state <= TaskRunning \{", dflt) is not None
+    reports = re.search(r"if e := task\.Err\(\); e != nil \{\n\t+err = e\n\t+\}\n\t+return err", dflt) is not None
+    deferred_ok = re.search(r"if task != nil \{\n\t\t\ttask\.Set\(TaskOk\)", wr) is not None
+    tk = open(wc.repo + "/exec/task.go").read()
+    lost_err = re.search(r"func \(t \*Task\) Err\(\) error \{(?:.|\n)*?case TaskLost:\n\t\treturn ErrTaskLost\n", tk) is not None
+    gen += "\ndef workerDiscardOrderG : Bool := %s\ndef workerRunTakesG : List String := [%s]\ndef workerRunWaitsG : Bool := %s" % (
+        "true" if disc_order else "false", ", ".join('"%s"' % a for a in arms), "true" if waits and reports and deferred_ok else "false")
+    gen += "\ndef lostReportedAsErrorG : Bool := %s" % ("true" if lost_err else "false")
+    ties.append(("worker_protocol_tie",
+                 'theorem worker_protocol_tie : workerDiscardOrderG = true ∧ workerRunTakesG = ["TaskErr", "TaskInit", "TaskLost"] ∧ '
+                 "workerRunWaitsG = true ∧ lostReportedAsErrorG = true := by decide",
+                 "exec/bigmachine.go (*worker).Run / (*worker).Discard, exec/task.go Task.Err: Discard acts only on an OK task, marks it RUNNING, "
+                 "deletes the output, then marks it LOST; Run takes a LOST, failed or fresh task and otherwise waits while the state is at most "
+                 "RUNNING and reports task.Err(), which is ErrTaskLost for a LOST task (BS.WorkerTask.step with lostIsError = true)"))
     vlib.t2_check(chk, wc, "C12", ["BS.Model.Discard"], gen, ties)
